@@ -32,6 +32,10 @@ REWRITE_CLASSES = {
     'V-SUBST': 'declared exact-text replacement (listed verbatim in the evidence)',
     'V-CLOSURE': 'a closure argument gets explicit parameter types, a named result and an ensures clause; its body text is kept byte for byte (Verus derives no postcondition for unannotated closures)',
     'V-ASSERT': '`assert!(E);` -> `{ let __c: bool = E; if !__c { rust_panic(); } }` (rust_panic requires false): the absence of the panic becomes an obligation',
+    'V-BLOCK': 'a compound statement (loop / if / match) located by its header and extracted byte for byte; the unit wraps it in a function whose parameters are its free variables',
+    'V-FNPTR': 'function-pointer parameter typed as `impl Fn + Copy`; constructor paths passed for it written as closures',
+    'V-HOIST': 'function-local item declared outside the function, same text',
+    'V-COMB': 'std combinator replaced by its definition',
     'V-ITER': 'declared desugaring of an iterator adapter / for-loop over a collection into an index loop (listed verbatim)',
 }
 
@@ -90,6 +94,23 @@ class Extractor:
         fr.impl_header = blk[3]
         if trait:
             fr.note('V-TRAIT', 1, REWRITE_CLASSES['V-TRAIT'])
+        return fr
+
+    def stmt(self, rel, ty, name, header_regex, trait=None):
+        """V-BLOCK: one compound statement (loop / if / match) of `fn name`, located by the regex of its header and
+        extended to the matching closing brace, byte for byte.  The caller wraps it in a function whose parameters
+        are the statement's free variables."""
+        src = self.src(rel)
+        (s, _, e), blk = src.method(ty, name, trait)
+        mm = next(src.find_code(header_regex, s, e), None)
+        if mm is None:
+            raise ScanError(f"{rel}: statement `{header_regex}` not found in {ty}::{name}")
+        ob = src.body_open(mm.start())
+        if ob < 0:
+            raise ScanError(f"{rel}: statement `{header_regex}` in {ty}::{name} has no body")
+        ce = src.match_close(ob)
+        fr = self._frag(rel, mm.start(), ce + 1, f"{rel}:{ty}::{name}/statement `{header_regex}`")
+        fr.note('V-BLOCK', 1, 'compound statement extracted from the function body (byte for byte) and wrapped in a function whose parameters are its free variables')
         return fr
 
     def impl_block(self, rel, ty, trait=None, nth=0):
